@@ -78,8 +78,20 @@ def decode_key(k):
     return (k.replace(b"\\n", b"\n").replace(b"\\u0061", b"a").replace(b'\\"', b'"'))
 
 
+def surrogate_pair(rng):
+    """\\uXXXX\\uXXXX spelling of a random supplementary code point (all 16 planes, plane borders over-represented)"""
+    cp = rng.choice([0x10000, 0x1FFFF, 0x20000, 0x2FFFF, 0x30000, 0x40000, 0x8FFFF, 0x90000, 0xFFFFF, 0x100000, 0x10FFFF,
+                     rng.randrange(0x10000, 0x110000), rng.randrange(0x10000, 0x110000)])
+    v = cp - 0x10000
+    fmt = rng.choice(["\\u%04x\\u%04x", "\\u%04X\\u%04X"])
+    return (fmt % (0xD800 + (v >> 10), 0xDC00 + (v & 0x3FF))).encode()
+
+
 def gen_strbody(rng):
-    if rng.random() < 0.7:
+    r0 = rng.random()
+    if r0 < 0.08:
+        return bytes(rng.choice(b"ab ") for _ in range(rng.randrange(0, 40))) + surrogate_pair(rng) + rng.choice([b"", b"z", surrogate_pair(rng)])
+    if r0 < 0.7:
         return rng.choice(STRS)
     n = rng.choice([0, 1, 5, 14, 15, 16, 17, 30, 31, 32, 33, 62, 63, 64, 65, 100])
     out = bytearray()
@@ -237,4 +249,24 @@ def pretty_docs(rng, quick):
             elif style == 3:
                 t = t.replace(b": ", b" :  ").replace(b",\n", b" ,\n")
             out.append(t)
+    return out
+
+
+def long_numbers(rng):
+    """number texts with 700..1200 significant digits that reach the big-decimal fallback of the number parser in each of its shapes:
+    subnormal results, overflow to the infinity error, values next to a tie between two doubles, full 800-digit buffers with right /
+    left shifts; plus long integers and long fractions that stay on the fast paths"""
+    out = []
+    for nd in (700, 759, 760, 799, 800, 801, 850, 900, 1200):
+        digs = "".join(rng.choice("123456789") for _ in range(nd))
+        out.append(("0." + digs + "e-310").encode())                       # subnormal
+        out.append(("0." + digs + "e-320").encode())
+        out.append((digs + "e-%d" % (nd - 310)).encode())                  # overflows: infinity error
+        out.append((digs + "e-%d" % (nd + 300)).encode())                  # tiny normal
+        out.append((digs + "e-%d" % (nd - 20)).encode())                   # ~1e20, dp > 0: right shifts with a full buffer
+        out.append(("9007199254740993" + "0" * (nd - 17) + "1e-%d" % (nd - 16)).encode())   # just above the tie 2^53+1
+        out.append(("9007199254740992." + "9" * (nd - 16)).encode())                        # just below 2^53+1
+        out.append(("4.9406564584124654" + digs[: nd - 17] + "e-324").encode())             # around the smallest subnormal
+        out.append(("-" + digs).encode())                                  # long integer
+        out.append(("0." + "0" * 40 + digs).encode())
     return out
